@@ -182,11 +182,25 @@ func WouldBlock(f func()) bool {
 
 var wg sync.WaitGroup
 
-// Threads enables the cooperative thread layer of the executor with a pre-emption bound (no-op natively).
-func Threads(maxPreempt int) {}
+// Threads enables the cooperative thread layer of the executor with a pre-emption bound; context switches
+// happen at mutex Lock and atomic Load/Store (ThreadsPool: also at sync.Pool Get/Put). Natively, when the
+// witness carries a schedule, the same scheduler is mirrored (see sched.go); otherwise real goroutines run.
+func Threads(maxPreempt int) {
+	if hasSchedule() {
+		main := &nthread{id: 0, wake: make(chan struct{})}
+		sched = &nsched{threads: []*nthread{main}, cur: main, maxPreempt: maxPreempt}
+	}
+}
+
+// ThreadsPool is Threads with sync.Pool Get/Put as additional scheduling points (no native schedule replay).
+func ThreadsPool(maxPreempt int) {}
 
 // Go starts f as a harness thread.
 func Go(f func()) {
+	if sched != nil {
+		sched.spawn(f)
+		return
+	}
 	wg.Add(1)
 	go func() {
 		defer wg.Done()
@@ -195,4 +209,10 @@ func Go(f func()) {
 }
 
 // Join waits for every thread started with Go.
-func Join() { wg.Wait() }
+func Join() {
+	if sched != nil {
+		sched.join()
+		return
+	}
+	wg.Wait()
+}
